@@ -479,11 +479,15 @@ func (fv *FuncVC) enterLoop(li *loopInfo) {
 	invs := fv.loopInvs(li)
 	// 1. invariant holds on entry
 	env := fv.newEnv(fv.cur, fv.entry)
+	env.cells = true
 	for k, c := range invs {
 		t := env.boolExpr(c.E, c.Pos)
 		fv.oblige(fmt.Sprintf("inv%d.entry", li.Ordinal), invLabel(c, k), t, token.NoPos, c.Src)
 	}
 	li.pre = fv.cur.clone()
+	if fv.FC.Opts["opt"] != "noframe" {
+		fv.frameObligations(fmt.Sprintf("inv%d.entry", li.Ordinal), token.NoPos)
+	}
 	// 2. havoc
 	cells, heaps, ghosts := fv.loopModified(li)
 	var cs []*ssa.Alloc
@@ -537,9 +541,25 @@ func (fv *FuncVC) enterLoop(li *loopInfo) {
 		}
 		st.ghost[g] = fv.freshConst("g."+mangle(g)+".l", sortS)
 	}
+	// 2b. implicit frame invariant: at the loop head every havocked heap still differs
+	// from its entry version only inside the function's modifies clause (checked on
+	// entry and at every back edge, see frameObligations).
+	li.heaps = sortedKeysBool(heaps)
+	if fv.FC.Opts["opt"] != "noframe" {
+		envE := fv.newEnv(fv.entry, fv.entry)
+		byHeap, _ := fv.clausesByHeap(envE, fv.FC.Modifies)
+		for _, h := range li.heaps {
+			if strings.HasPrefix(h, "L.") {
+				continue
+			}
+			old := fv.heap(fv.entry, h, elemSortOf(fv.heapSort[h]))
+			fv.assumeHere(fv.frameAxiom(envE, h, old, st.heaps[h], byHeap[h]))
+		}
+	}
 	// 3. assume invariants (and inferred facts)
 	env = fv.newEnv(fv.cur, fv.entry)
 	env.loopPre = li.pre
+	env.cells = true
 	for _, c := range invs {
 		fv.assumeHere(env.boolExpr(c.E, c.Pos))
 	}
@@ -605,9 +625,13 @@ func (fv *FuncVC) backEdge(li *loopInfo, from *ssa.BasicBlock) {
 	fv.curReach = fv.edge(from, li.Header)
 	env := fv.newEnv(fv.cur, fv.entry)
 	env.loopPre = li.pre
+	env.cells = true
 	for k, c := range fv.loopInvs(li) {
 		t := env.boolExpr(c.E, c.Pos)
 		fv.oblige(fmt.Sprintf("inv%d.preserve", li.Ordinal), invLabel(c, k), t, token.NoPos, c.Src)
+	}
+	if fv.FC.Opts["opt"] != "noframe" {
+		fv.frameObligations(fmt.Sprintf("inv%d.preserve", li.Ordinal), token.NoPos)
 	}
 	i := 0
 	for _, c := range fv.FC.LoopDecr {
@@ -653,20 +677,9 @@ func (fv *FuncVC) checkFrame(env *Env, pos token.Pos) {
 	if fc.Opts["opt"] == "noframe" {
 		return // frame deliberately not checked (stated in the contract)
 	}
+	fv.frameObligations("frame", pos)
 	envPre := fv.newEnv(fv.entry, fv.entry)
 	byHeap, _ := fv.clausesByHeap(envPre, fc.Modifies)
-	for _, h := range sortedKeys(fv.cur.heaps) {
-		cur := fv.cur.heaps[h]
-		old := fv.heap(fv.entry, h, elemSortOf(fv.heapSort[h]))
-		if cur.S == old.S {
-			continue
-		}
-		if strings.HasPrefix(h, "L.") { // function-local heap cells
-			continue
-		}
-		t := fv.frameAxiom(envPre, h, old, cur, byHeap[h])
-		fv.oblige("frame", h, t, pos, "heap "+h+" changes only inside the modifies clause")
-	}
 	for _, g := range sortedKeys(fv.cur.ghost) {
 		if strings.HasPrefix(g, "$iter") {
 			continue
@@ -683,5 +696,28 @@ func (fv *FuncVC) checkFrame(env *Env, pos token.Pos) {
 			continue
 		}
 		fv.oblige("frame", g, eq(cur, old), pos, "ghost "+g+" not in modifies clause")
+	}
+}
+
+// frameObligations: every heap changed since entry differs from its entry
+// version only inside the modifies clause (or in memory allocated since entry).
+func (fv *FuncVC) frameObligations(kind string, pos token.Pos) {
+	envPre := fv.newEnv(fv.entry, fv.entry)
+	byHeap, _ := fv.clausesByHeap(envPre, fv.FC.Modifies)
+	for _, h := range sortedKeys(fv.cur.heaps) {
+		cur := fv.cur.heaps[h]
+		old := fv.heap(fv.entry, h, elemSortOf(fv.heapSort[h]))
+		if cur.S == old.S {
+			continue
+		}
+		if strings.HasPrefix(h, "L.") { // function-local heap cells
+			continue
+		}
+		t := fv.frameAxiom(envPre, h, old, cur, byHeap[h])
+		what := h
+		if kind != "frame" {
+			what = "frame." + h
+		}
+		fv.oblige(kind, what, t, pos, "heap "+h+" changes only inside the modifies clause")
 	}
 }
